@@ -74,8 +74,13 @@ def r1_r2(ctx: Ctx, pf: FuncInfo) -> None:
         'captures-need-template': lambda s: src(s.test) == 'has_custom and (not description_template)' or src(s.test) == 'has_custom and not description_template',
         'template-reference': lambda s: src(s.test) == 'ref not in custom_captures',
     }
+    bound = {n.id for n in ast.walk(pf.node) if isinstance(n, ast.Name) and isinstance(n.ctx, ast.Store)}
+    flags_of = {'description-or-captures': ('has_description', 'has_custom'), 'captures-need-template': ('has_custom',)}
     for what, pred in tests.items():
         ifs = [s for s in cfg.stmts() if isinstance(s, ast.If) and pred(s)]
+        if not ifs and any(fl_ not in bound for fl_ in flags_of.get(what, ())):
+            # the flags these tests were written on (has_description / has_custom) are gone: the rejection may well be there in another spelling
+            ctx.unknown('C18.R2', pf, f'{what}: the mode flags {flags_of[what]} are not variables of parse_format_string any more')
         ok = bool(ifs) and isinstance(ifs[0].body[-1], ast.Raise) and 'ValueError' in src(ifs[0].body[-1])
         dom = bool(ifs) and (cfg.dominates(ifs[0], bst) or any(isinstance(a, ast.For) and cfg.dominates(a, bst) for a in ancestors(ifs[0])))
         if ifs and not dom and what == 'template-reference':
@@ -98,9 +103,26 @@ def r1_r2(ctx: Ctx, pf: FuncInfo) -> None:
             'description_template': 'description_template'}
     bad = {k: kw.get(k) for k, v in want.items() if kw.get(k) != v}
     ctx.check(not bad, 'C18.R2', pf, 'construction', 'FormatSpec fields come from the like-named table entries', f'FormatSpec built with {bad}', build[0])
-    # sign mode and date format
+    # sign mode and date format.  Whatever the spelling: (1) inside the column loop the sign flags - or whatever they are later computed from - are only
+    # written for the amount field; (2) '-' is what turns on negate_amount and '+' what turns on abs_amount.
     text = src(lp)
-    ok = "if field_name == 'amount':\n" in text and "if negate_prefix == '-':\n" in text and 'negate_amount = True' in text and "elif negate_prefix == '+':\n" in text and 'abs_amount = True' in text
+    flags = {'negate_amount', 'abs_amount'}
+    feeds = set(flags)
+    for s_ in cfg.stmts():
+        if isinstance(s_, ast.Assign) and any(isinstance(t, ast.Name) and t.id in flags for t in s_.targets):
+            feeds |= {n.id for n in ast.walk(s_.value) if isinstance(n, ast.Name)}
+    feeds -= {'negate_prefix', 'True', 'False'}
+    in_loop = [s_ for s_ in cfg.stmts() if isinstance(s_, ast.Assign) and any(a is lp for a in ancestors(s_)) and any(isinstance(t, ast.Name) and t.id in feeds for t in s_.targets)]
+    only_amount = bool(in_loop) and all(("field_name == 'amount'", True) in cfg.guard_literals_within(s_, lp) for s_ in in_loop)
+
+    def tied(flag, sign):
+        for s_ in cfg.stmts():
+            if isinstance(s_, ast.Assign) and any(isinstance(t, ast.Name) and t.id == flag for t in s_.targets):
+                txt = src(s_.value) + ' ' + ' '.join(t for t, tr in cfg.guard_literals(s_) if tr)
+                if f"'{sign}'" in txt and not (isinstance(s_.value, ast.Constant) and s_.value.value is False):
+                    return True
+        return False
+    ok = only_amount and tied('negate_amount', '-') and tied('abs_amount', '+')
     ctx.check(ok, 'C18.R2', pf, 'sign-mode', '{-amount} -> negate, {+amount} -> abs, only on the amount field', 'sign prefixes are not mapped to negate/abs on the amount field')
     ok = "if field_name == 'date' and format_spec:\n" in text and 'date_format = format_spec' in text
     ctx.check(ok, 'C18.R2', pf, 'date-format', '{date:FORMAT} sets the date format', 'the date format specifier is not taken from the date field')
@@ -229,6 +251,10 @@ def r3_r4(ctx: Ctx, pf: FuncInfo) -> None:
     for c in ast.walk(ad.node):
         if isinstance(c, ast.Call) and call_name(c) == 'FormatSpec':
             kw = {k.arg: src(k.value) for k in c.keywords}
+    adbound = {n.id for n in ast.walk(ad.node) if isinstance(n, ast.Name) and isinstance(n.ctx, ast.Store)}
+    if not {'date_col', 'desc_col', 'amount_col'} <= adbound:
+        # the detector does not keep one variable per column any more (a table of header patterns filling a dict, say)
+        ctx.unknown('C18.R4', ad, 'the detector no longer keeps date_col / desc_col / amount_col variables')
     want = {'date_column': 'date_col', 'description_column': 'desc_col', 'amount_column': 'amount_col', 'location_column': 'location_col'}
     bad = {k: kw.get(k) for k, v in want.items() if kw.get(k) != v}
     ctx.check(not bad, 'C18.R4', ad, 'detector-mapping', 'detected indices go to the like-named FormatSpec columns', f'detector builds FormatSpec with {bad}')
